@@ -92,6 +92,12 @@ def build(chain, source_kind="call", sink_kind="call", placement="top", layout="
         body.append("v0 = prov.get()  #S")
     elif source_kind == "param":
         body.append("v0 = req")
+    elif source_kind == "helper-early":
+        body.append("v0 = fetch_early(cond)")
+    elif source_kind == "helper-twice":
+        body.append("w0 = fetch()")
+        body.append("snk(w0)  #K0")
+        body.append("v0 = fetch()")
     var = "v0"
     for n, l in enumerate(chain):
         out = f"v{n + 1}"
@@ -104,7 +110,15 @@ def build(chain, source_kind="call", sink_kind="call", placement="top", layout="
         body.append(f"db.execute({var})  #K")
     elif sink_kind == "call-arg1":
         body.append(f"snk2('c', {var})  #K")
+    elif sink_kind == "kwcallee":
+        body.append(f"handle(payload={var}, mode=1)")
     header = SITES + (LIB if layout == "one" else "from lib import ident, second, Obj, Box, setg, getg\n")
+    if source_kind == "helper-early":
+        header += "def fetch_early(flag):\n    t = src()  #S\n    if flag:\n        return t\n    return 'c'\n"
+    if source_kind == "helper-twice":
+        header += "def fetch():\n    t = src()  #S\n    return t\n"
+    if sink_kind == "kwcallee":
+        header += "def handle(mode, payload):\n    snk(payload)  #K\n    return mode\n"
     entry = None
     if source_kind == "param":
         lines = header.splitlines() + ["def handler(req):  #S"] + ["    " + b for b in body]
@@ -126,9 +140,12 @@ def build(chain, source_kind="call", sink_kind="call", placement="top", layout="
 
 def rules(source_kind, sink_kind, lang="python", extra_source=None, extra_sink=None, sink_arg=0):
     src = {"call": {"operation": "call_stmt", "name": "src", "tag": ["%target"]},
+           "helper-early": {"operation": "call_stmt", "name": "src", "tag": ["%target"]},
+           "helper-twice": {"operation": "call_stmt", "name": "src", "tag": ["%target"]},
            "method": {"operation": "object_call_stmt", "name": "prov.get", "tag": ["%target"]},
            "param": {"operation": "parameter_decl", "name": "req"}}[source_kind]
     snk = {"call": {"operation": "call_stmt", "name": "snk", "target": ["\\%arg" + str(sink_arg)], "vuln_type": "x"},
+           "kwcallee": {"operation": "call_stmt", "name": "snk", "target": ["\\%arg" + str(sink_arg)], "vuln_type": "x"},
            "call-arg1": {"operation": "call_stmt", "name": "snk2", "target": ["\\%arg" + str(sink_arg)], "vuln_type": "x"},
            "method": {"operation": "object_call", "name": "db.execute", "target": ["\\%arg" + str(sink_arg)], "vuln_type": "x"}}[sink_kind]
     if extra_source:
@@ -171,6 +188,7 @@ def cpython_truth(prog):
     def caller_line():
         f = sys._getframe(2)
         return f.f_lineno
+    extra_k = [i + 1 for i, l in enumerate(text.splitlines()) if l.rstrip().endswith("#K0")]
 
     def src():
         state["src_line"] = caller_line()
